@@ -154,6 +154,8 @@ type Case struct {
 	// ViaCallback: the value or error is produced by the client's OnCallback
 	// handler; the server handler calls back, and passes on what it gets.
 	ViaCallback bool `json:"via_callback,omitempty"`
+	// UseCallResult: the caller uses Client.CallResult instead of Client.Call.
+	UseCallResult bool `json:"use_call_result,omitempty"`
 }
 
 func jsonEqual(a, b []byte) bool { return refjson.Equal(a, b) }
@@ -227,7 +229,15 @@ func run(t *testing.T, c Case) (v engine.Verdict) {
 				}
 			}
 			loc := server.NewLocal(handler.Map{"ok": func(ctx context.Context, req *jrpc2.Request) (any, error) { return "fine", nil }, "m": m}, lopts)
-			rsp, cerr = loc.Client.Call(context.Background(), "m", nil)
+			if c.UseCallResult {
+				var out any
+				cerr = loc.Client.CallResult(context.Background(), "m", nil, &out)
+				if cerr == nil {
+					wire, _ = json.Marshal(out)
+				}
+			} else {
+				rsp, cerr = loc.Client.Call(context.Background(), "m", nil)
+			}
 			if rsp != nil {
 				wire, _ = json.Marshal(rsp)
 			}
@@ -354,6 +364,7 @@ func genCase(t *rapid.T) Case {
 	case 1:
 		c.ViaCallback = true
 	}
+	c.UseCallResult = rapid.IntRange(0, 3).Draw(t, "callresult") == 0
 	return c
 }
 
